@@ -95,6 +95,18 @@ var c11Injectors = []c11Injector{
 		ms.Mods = append(ms.Mods, s1, s2)
 		return true
 	}},
+	// import cycles that pass through a submodule: the import that closes the cycle is written in a
+	// submodule of the first module, under a fresh prefix or under a prefix the module itself binds
+	// to another module (prefixes are scoped per module / submodule)
+	{"import-cycle-through-submodule", true, func(r *core.Rng, ms *yang.ModSet) bool {
+		return c11SubmoduleImportCycle(ms, "cycsub", false)
+	}},
+	{"import-cycle-through-submodule-prefix-reused", true, func(r *core.Rng, ms *yang.ModSet) bool {
+		return c11SubmoduleImportCycle(ms, "", false)
+	}},
+	{"grouping-cycle-across-modules-behind-submodule-import", true, func(r *core.Rng, ms *yang.ModSet) bool {
+		return c11SubmoduleImportCycle(ms, "", true)
+	}},
 	{"grouping-self-direct", true, func(r *core.Rng, ms *yang.ModSet) bool {
 		addBody(modA(ms), yang.S("grouping", "cyg", yang.S("leaf", "gl", yang.S("type", "string")), yang.S("uses", "cyg")), yang.S("container", "cyuse", yang.S("uses", "cyg")))
 		return true
@@ -344,6 +356,39 @@ func c11Gen(seed int64, idx int) c11Case {
 		}
 	}
 	return c
+}
+
+// c11SubmoduleImportCycle: module A includes submodule sub-ic; sub-ic imports a new module cyc-b,
+// cyc-b imports A.  pfx == "": the submodule reuses a prefix that A binds to a different module
+// (a helper module cyc-x is added and imported by A when A has no import).  withGroupings: the
+// cycle is also one of groupings (A's grouping uses cyc-b's, which uses A's).
+func c11SubmoduleImportCycle(ms *yang.ModSet, pfx string, withGroupings bool) bool {
+	a := modA(ms)
+	if pfx == "" {
+		if imp := a.Find("import"); imp != nil {
+			pfx = imp.Find("prefix").Arg
+		} else {
+			x := yang.S("module", "cyc-x", yang.S("namespace", "urn:verif:cyc-x"), yang.S("prefix", "cx"), yang.S("leaf", "cyc-x-leaf", yang.S("type", "string")))
+			ms.Mods = append(ms.Mods, x)
+			addBody(a, yang.S("import", "cyc-x", yang.S("prefix", "shared")))
+			pfx = "shared"
+		}
+	}
+	sub := yang.S("submodule", "sub-ic", yang.S("belongs-to", a.Arg, yang.S("prefix", pfx+"own")),
+		yang.S("import", "cyc-b", yang.S("prefix", pfx)))
+	b := yang.S("module", "cyc-b", yang.S("namespace", "urn:verif:cyc-b"), yang.S("prefix", "cb"), yang.S("import", a.Arg, yang.S("prefix", "backa")),
+		yang.S("leaf", "cyc-b-leaf", yang.S("type", "string")))
+	if withGroupings {
+		sub.Add(yang.S("grouping", "ga", yang.S("container", "gac", yang.S("uses", pfx+":gb"))), yang.S("container", "cyc-sub-use", yang.S("uses", "ga")))
+		b.Add(yang.S("grouping", "gb", yang.S("container", "gbc", yang.S("uses", "backa:ga"))))
+	} else {
+		sub.Add(yang.S("leaf", "sub-ic-leaf", yang.S("type", "string")))
+	}
+	yang.SortSections(sub)
+	yang.SortSections(b)
+	addBody(a, yang.S("include", "sub-ic"))
+	ms.Mods = append(ms.Mods, sub, b)
+	return true
 }
 
 func c11AddHomonyms(m *yang.Stmt, n int) {
